@@ -8,6 +8,7 @@
 package sibling
 
 import (
+	"os"
 	"fmt"
 	"go/constant"
 	"go/token"
@@ -66,6 +67,11 @@ type cmp struct {
 	first  *Diff
 	fnName string
 	nodes  int
+	// round comparison inside one function: values of the earlier round's inputs map to the later round's inputs;
+	// the operand limb arg1[i] of the earlier round corresponds to arg1[i+1]
+	leaf      map[ssa.Value]ssa.Value
+	leafRange map[ssa.Value]bool
+	argShift  bool
 }
 
 func constU64(v ssa.Value) (uint64, bool) {
@@ -122,6 +128,17 @@ func (c *cmp) stripMask(v ssa.Value, own, other *Modulus) ssa.Value {
 func (c *cmp) same(x, y ssa.Value) bool {
 	if c.resA != nil {
 		x, y = c.resA(x), c.resB(y)
+	}
+	if c.leaf != nil {
+		if v, ok := c.leaf[x]; ok {
+			if v == y {
+				return true
+			}
+			return c.fail(x.Pos(), "an accumulator word of the earlier round corresponds to a different word of the later round")
+		}
+		if c.leafRange[y] {
+			return c.fail(y.Pos(), "the later round uses an accumulator word where the earlier round computes a value")
+		}
 	}
 	key := [2]ssa.Value{x, y}
 	if r, ok := c.memo[key]; ok {
@@ -272,6 +289,18 @@ func (c *cmp) same1(x, y ssa.Value) bool {
 		b, ok := y.(*ssa.IndexAddr)
 		if !ok {
 			return c.fail(a.Pos(), "element address vs %s", y)
+		}
+		if c.argShift {
+			if pa, isP := a.X.(*ssa.Parameter); isP && paramIndex(pa) == 1 {
+				if pb, isQ := b.X.(*ssa.Parameter); isQ && paramIndex(pb) == 1 {
+					ia, okA := constU64(a.Index)
+					ib, okB := constU64(b.Index)
+					if okA && okB && (ib == ia+1 || ib == ia) {
+						return true
+					}
+					return c.fail(a.Pos(), "operand limb arg1[%d] of the earlier round vs arg1[%d] of the later round", ia, ib)
+				}
+			}
 		}
 		return c.same(a.X, b.X) && c.same(a.Index, b.Index)
 	case *ssa.Alloc:
@@ -617,3 +646,213 @@ func TailOK(fn *ssa.Function, m *Modulus) (applies, ok bool, pos token.Pos, msg 
 }
 
 
+
+// RoundsResult reports the comparison of consecutive reduction rounds inside one word-by-word Montgomery primitive.
+type RoundsResult struct {
+	Applies bool   // four reduction rounds (four multiplications by m') were found
+	Pairs   []int  // k such that round k and round k+1 were compared
+	Bad     []int  // k for which the comparison failed
+	Msg     string // first difference
+	Pos     token.Pos
+}
+
+// Rounds checks a generated word-by-word Montgomery primitive against itself: rounds 2, 3 and 4 of the four
+// reduction rounds must have the same data-flow graph, with the five accumulator words leaving round k-1 mapped to
+// those leaving round k and the operand limb arg1[k-1] mapped to arg1[k]. Round boundaries are the points after each
+// multiplication by m' where exactly five computed words are live. This sees an edit of one round of a primitive
+// that has no comparable sibling (ToMontgomery), and an edit made identically in both generated files.
+func Rounds(fn *ssa.Function, m *Modulus) RoundsResult {
+	var res RoundsResult
+	if len(fn.Blocks) != 1 {
+		return res
+	}
+	instrs := fn.Blocks[0].Instrs
+	idx := map[ssa.Instruction]int{}
+	for i, in := range instrs {
+		idx[in] = i
+	}
+	r := resolver(fn)
+	// multiplications by m'
+	var mprime []int
+	for i, in := range instrs {
+		c, ok := in.(*ssa.Call)
+		if !ok {
+			continue
+		}
+		callee := c.Call.StaticCallee()
+		if callee == nil || callee.Pkg == nil || callee.Pkg.Pkg.Path() != "math/bits" || callee.Name() != "Mul64" {
+			continue
+		}
+		for _, a := range c.Call.Args {
+			if k, isK := constU64(a); isK {
+				for _, role := range m.rolesOf(k) {
+					if role == "MPRIME" {
+						mprime = append(mprime, i)
+					}
+				}
+			}
+		}
+	}
+	if len(mprime) != 4 {
+		return res
+	}
+	res.Applies = true
+	// computed words: results of calls (through Extract), binary operations, conversions; not loads, constants, addresses
+	computed := func(v ssa.Value) bool {
+		switch v.(type) {
+		case *ssa.Extract, *ssa.BinOp, *ssa.Convert, *ssa.ChangeType:
+			return true
+		}
+		return false
+	}
+	defIdx := func(v ssa.Value) int {
+		if in, ok := v.(ssa.Instruction); ok {
+			if i, has := idx[in]; has {
+				return i
+			}
+		}
+		return -1
+	}
+	// last use index of every computed value (uses through loads of locals are resolved)
+	lastUse := map[ssa.Value]int{}
+	for i, in := range instrs {
+		for _, op := range in.Operands(nil) {
+			if *op == nil {
+				continue
+			}
+			v := r(*op)
+			if computed(v) {
+				if i > lastUse[v] {
+					lastUse[v] = i
+				}
+			}
+		}
+	}
+	// single-use wrappers (Extract of a call, conversions) are followed to what they feed: liveness is taken on the
+	// values as written in the source (x37, x38, ...): Extract and the sums of carries
+	live := func(cut int) []ssa.Value {
+		var out []ssa.Value
+		for v, lu := range lastUse {
+			d := defIdx(v)
+			if d >= 0 && d < cut && lu >= cut {
+				// conversions of an earlier value are not separate words
+				switch v.(type) {
+				case *ssa.Convert, *ssa.ChangeType:
+					continue
+				}
+				out = append(out, v)
+			}
+		}
+		sort.Slice(out, func(i, j int) bool { return defIdx(out[i]) < defIdx(out[j]) })
+		return out
+	}
+	// end of round k: the first cut after the k-th multiplication by m' (and its products) with five live words
+	var bounds []int
+	var outs [][]ssa.Value
+	for k := 0; k < 4; k++ {
+		end := len(instrs)
+		if k+1 < 4 {
+			end = mprime[k+1]
+		}
+		if k+1 == 4 {
+			// the last round ends where the final subtraction starts
+			for i := mprime[k]; i < len(instrs); i++ {
+				if c, ok := instrs[i].(*ssa.Call); ok {
+					if callee := c.Call.StaticCallee(); callee != nil && callee.Name() == "Sub64" {
+						end = i
+						break
+					}
+				}
+			}
+		}
+		// the first cut after this round's multiplication by m' at which exactly five words are live and every one of
+		// them depends on that multiplication: the four accumulator limbs and the top word (or its carry) after the
+		// reduction, before the next operand limb is merged in
+		dep := map[ssa.Value]bool{}
+		for i := mprime[k]; i < end && i < len(instrs); i++ {
+			v, isV := instrs[i].(ssa.Value)
+			if !isV {
+				continue
+			}
+			if i == mprime[k] {
+				dep[v] = true
+				continue
+			}
+			for _, op := range instrs[i].Operands(nil) {
+				if *op != nil && dep[r(*op)] {
+					dep[v] = true
+				}
+			}
+		}
+		found := -1
+		var fl []ssa.Value
+		for c := mprime[k] + 2; c <= end; c++ {
+			l := live(c)
+			if len(l) != 5 {
+				continue
+			}
+			all := true
+			for _, v := range l {
+				if !dep[v] {
+					all = false
+				}
+			}
+			if all {
+				found = c
+				fl = l
+				break
+			}
+		}
+		if found >= 0 {
+			outs = append(outs, fl)
+		}
+		if found < 0 {
+			res.Bad = append(res.Bad, k+1)
+			res.Msg = fmt.Sprintf("the end of reduction round %d (five live accumulator words) was not found", k+1)
+			res.Pos = instrs[mprime[k]].Pos()
+			return res
+		}
+		bounds = append(bounds, found)
+		if os.Getenv("SVDEBUGROUNDS") != "" {
+			fmt.Fprintf(os.Stderr, "%s round %d: m' at %d, end cut %d, live:", fn.Name(), k+1, mprime[k], found)
+			for _, v := range outs[len(outs)-1] {
+				fmt.Fprintf(os.Stderr, " %s@%d", v.Name(), defIdx(v))
+			}
+			fmt.Fprintln(os.Stderr)
+		}
+	}
+	for k := 2; k <= 3; k++ { // compare round k with round k+1 (1-based)
+		if len(outs[k-2]) != len(outs[k-1]) || len(outs[k-1]) != len(outs[k]) {
+			continue // the earlier round is the special first round (no incoming top word): not comparable
+		}
+		n := len(outs[k-1])
+		c := &cmp{a: m, b: m, memo: map[[2]ssa.Value]bool{}, fnName: fn.Name(), resA: r, resB: r}
+		c.leaf = map[ssa.Value]ssa.Value{}
+		c.leafRange = map[ssa.Value]bool{}
+		for j := 0; j < n; j++ {
+			c.leaf[outs[k-2][j]] = outs[k-1][j]
+			c.leafRange[outs[k-1][j]] = true
+		}
+		c.argShift = true
+		res.Pairs = append(res.Pairs, k)
+		for j := 0; j < n; j++ {
+			if !c.same(outs[k-1][j], outs[k][j]) {
+				res.Bad = append(res.Bad, k)
+				if res.Msg == "" {
+					res.Msg = fmt.Sprintf("accumulator word %d after round %d is not computed like the one after round %d", j, k+1, k)
+					if c.first != nil {
+						res.Msg += ": " + c.first.Msg
+						res.Pos = c.first.Pos
+					}
+					if !res.Pos.IsValid() {
+						if in, ok := outs[k][j].(ssa.Instruction); ok {
+							res.Pos = in.Pos()
+						}
+					}
+				}
+				break
+			}
+		}
+	}
+	return res
+}
